@@ -34,7 +34,9 @@ Next ==
                  \* headers below it (fetched from the trusted getter)
                  ELSE IF e.e = "gossip" /\ e.kind = "forgedFar" /\ e.h - 1 > lrn0 THEN e.h - 1
                  \* asynchronous deliveries of a valid head: from the moment it is offered the store may reach it
-                 ELSE IF e.e = "gossipAsync" /\ e.kind = "valid" /\ e.h > lrn0 THEN e.h ELSE lrn0
+                 ELSE IF e.e = "gossipAsync" /\ e.kind = "valid" /\ e.h > lrn0 THEN e.h
+                 \* a Head() call was answered with a verified newer head (e.h): learned, whatever Head() itself returns
+                 ELSE IF e.e = "headRelease" /\ e.kind = "fresh" /\ e.h > lrn0 THEN e.h ELSE lrn0
          lf1 == IF e.e = "gossip" /\ e.kind = "valid" /\ e.res = "nil" THEN FALSE
                 ELSE IF e.e = "serve" /\ e.kind # "ok" /\ e.served THEN TRUE ELSE lf0
          st0 == IF fresh THEN 1 ELSE servedTo
